@@ -179,4 +179,27 @@ def EvsInt64 : List Ev → Prop
   | .check _ n :: rest => (n : Int) < 2 ^ 63 ∧ EvsInt64 rest
   | _ :: rest => EvsInt64 rest
 
+
+/-! ### a batch cut into slices (what the source does NOT do — `Generated/Facts/UpdateTx.lean`)
+
+`applyMessagesCreated` carries a whole `MessagesCreated` update, however long, in ONE write
+transaction: the limit checks (`addTx n`, with the full `n`) are made inside it and a refusal rolls
+everything back.  `addSlices` is the alternative a reader of the SQL layer might expect — the update
+cut into pieces (`xslices.Chunk(update.Messages, db.ChunkLimit)`), one transaction per piece, stop at
+the first refusal: the pieces committed before the limit is hit stay.  It is here so that the
+theorems can say what the difference is and when it shows (`C17.sliced_batch_partial_effect_witness`,
+`C17.sliced_same_when_whole_fits`). -/
+
+/-- one `addTx` per slice, stopping at the first refused one -/
+def addSlices (l : IMAP) : World → List Nat → World
+  | w, [] => w
+  | w, k :: ks => if msgChecks l w k then addSlices l (step l w (.addTx k)) ks else w
+
+/-- lengths of the slices `xslices.Chunk` cuts a list of `n` elements into (`fuel ≥ n` suffices) -/
+def sliceSizesAux (L : Nat) : Nat → Nat → List Nat
+  | 0, _ => []
+  | fuel + 1, n => if n == 0 then [] else if L == 0 || n ≤ L then [n] else L :: sliceSizesAux L fuel (n - L)
+
+def sliceSizes (L n : Nat) : List Nat := sliceSizesAux L n n
+
 end Gluon.Limits
